@@ -4,8 +4,8 @@ _s = importlib.util.spec_from_file_location("rc", os.path.join(VERIF, "props", "
 
 def harnesses(tier, findings):
     if tier == "probe":
-        return [rc.source_unit(H, VERIF, 0, 2, 1, envmax=6, timeout=900), rc.sink_unit(H, VERIF, 0, 2, 1, envmax=6, timeout=900),
-                rc.source_unit(H, VERIF, 0, 1, 1, envmax=4, timeout=900, tag="p"), rc.sink_unit(H, VERIF, 0, 1, 1, envmax=4, timeout=900, tag="p")]
+        return [rc.sink_unit(H, VERIF, 0, 2, 1, polls=2, envmax=5, timeout=900, delay0=True, tag="d0"), rc.sink_unit(H, VERIF, 0, 1, 1, polls=2, envmax=4, timeout=900, tag="n1"),
+                rc.sink_unit(H, VERIF, 0, 2, 2, polls=2, envmax=5, timeout=900, tag="k2")]
     if tier == "quick":
         return [rc.source_unit(H, VERIF, 0, 2, 2), rc.sink_unit(H, VERIF, 0, 2, 2)]
     return [rc.source_unit(H, VERIF, 0, 3, 2, timeout=3000), rc.sink_unit(H, VERIF, 0, 3, 2, timeout=3000),
